@@ -56,6 +56,11 @@ fn word_counts(lines: &[String], norm: bool, lay: Layout) -> Vec<(Vec<u8>, u64)>
     v
 }
 
+/// a table produced by the real trainer (also used by the C02 / C03 / C04 generators)
+pub fn trained_table(lines: &[String], n_merges: usize, threads: u8) -> Option<Vec<(Vec<u8>, u32)>> {
+    std::panic::catch_unwind(|| train(lines, n_merges, false, threads, Layout { nfiles: 1, maxl: 0 }).ok()).ok().flatten()
+}
+
 fn train(lines: &[String], n_merges: usize, norm: bool, threads: u8, lay: Layout) -> Result<Vec<(Vec<u8>, u32)>, String> {
     let dir = tmp();
     let mut paths = vec![];
@@ -236,6 +241,28 @@ pub fn exec(op: &str, a: &[u64]) -> Result<Outcome, String> {
     let _ = table_req;
     if let Err(e) = oracle_greedy(&words, n, &table) {
         o.check(false, &format!("C19: {e}"));
+    }
+    // a tokenizer built from the written table is lossless and vocabulary-consistent (C02 / C04 on this table)
+    {
+        use crate::props::tok::{build, Common, Kind};
+        use text_utils::tokenization::Tokenize;
+        let common = Common { tokens: vec!["<unk>".into(), "<bos>".into(), "<eos>".into(), "<pad>".into()], pad: "<pad>".into(), prefix: vec!["<bos>".into()], suffix: vec!["<eos>".into()] };
+        match std::panic::catch_unwind(|| build(&Kind::Bpe { table: table.clone(), max_vocab: None }, &common, false)) {
+            Ok(Some(b)) => {
+                o.check(b.tok.vocab_size() == 256 + table.len() + 4, "C19: vocabulary of a tokenizer built from the table != 256 + merges + special tokens");
+                for l in &lines {
+                    let want = l.trim_end();
+                    match b.tok.tokenize(l, true) {
+                        Ok(t) => {
+                            o.check(t.token_ids.iter().all(|id| (*id as usize) < b.tok.vocab_size()), "C19: a tokenizer built from the table emits an id outside its vocabulary");
+                            o.check(matches!(b.tok.de_tokenize(&t.token_ids, true), Ok(ref d) if d == want), "C19: a tokenizer built from the table is not lossless on the corpus");
+                        }
+                        Err(_) => o.check(false, "C19: a tokenizer built from the table cannot tokenize the corpus"),
+                    }
+                }
+            }
+            _ => o.check(false, "C19: no tokenizer can be built from the written table"),
+        }
     }
     for t in [0u8, 1, 3] {
         if t != threads {
